@@ -49,8 +49,9 @@ type Run struct {
 
 	start time.Time
 
-	evals      atomic.Int64
-	sampleTick atomic.Int64
+	evals           atomic.Int64
+	distinctDropped atomic.Int64
+	sampleTick      atomic.Int64
 
 	mu          sync.Mutex
 	shards      [64]shard
@@ -96,9 +97,17 @@ func (r *Run) Nontrivial(key string) {
 	v := h.Sum64()
 	s := &r.shards[v%64]
 	s.mu.Lock()
-	s.m[v] = struct{}{}
+	if len(s.m) < shardCap {
+		s.m[v] = struct{}{}
+	} else if _, ok := s.m[v]; !ok {
+		r.distinctDropped.Add(1)
+	}
 	s.mu.Unlock()
 }
+
+// shardCap bounds the memory of the distinct-case set (64 shards): beyond 16M distinct keys the
+// count reported is a lower bound and the evidence says so.
+const shardCap = 250000
 
 func (r *Run) distinct() int {
 	n := 0
@@ -275,6 +284,9 @@ func (r *Run) Finish() int {
 		}
 		if r.Exhaustive {
 			cov["exhaustive"] = true
+		}
+		if d := r.distinctDropped.Load(); d > 0 {
+			cov["distinct_nontrivial_is_lower_bound"] = fmt.Sprintf("the distinct-case set is capped at 16M keys; %d further non-trivial cases were judged but not added to the count", d)
 		}
 		obs := map[string]int64{}
 		r.mu.Lock()
